@@ -450,3 +450,37 @@ Lemma post_process_params_examples :
   post_process_params (Some 12%Z) (Some 3%Z) (Some 8%Z) (Some 5%Z) = PPRows 3 15 16 3 /\
   post_process_params (Some 1%Z) (Some 0%Z) None None = PPass.
 Proof. vm_compute. repeat split; reflexivity. Qed.
+
+(* ------------------------------------------------------------------ cmap format 4 layout *)
+
+(* an accepted layout covers all four segment arrays: every 2-byte read endCode[s], startCode[s], idDelta[s],
+   idRangeOffset[s] for a segment s < segCount lies inside the subtable's declared (and available) length *)
+Lemma cmap4_layout_in_bounds : forall avail format declared segx2 size n e st d rg,
+  (0 <= segx2)%Z ->
+  cmap4_layout avail format declared segx2 = Some (size, n, e, st, d, rg) ->
+  (size <= avail)%Z /\ (1 <= n)%Z /\
+  forall s, (0 <= s < n)%Z ->
+    (0 <= e + 2 * s /\ e + 2 * s + 2 <= size)%Z /\ (0 <= st + 2 * s /\ st + 2 * s + 2 <= size)%Z /\
+    (0 <= d + 2 * s /\ d + 2 * s + 2 <= size)%Z /\ (0 <= rg + 2 * s /\ rg + 2 * s + 2 <= size)%Z.
+Proof.
+  intros avail format declared segx2 size n e st d rg Hs. unfold cmap4_layout.
+  destruct (avail <? 16)%Z eqn:E1; [discriminate|].
+  destruct (negb (format =? 4)%Z) eqn:E2; [discriminate|].
+  destruct (declared <? 16)%Z eqn:E3; [discriminate|].
+  destruct (avail <? declared)%Z eqn:E4; [discriminate|].
+  destruct ((segx2 =? 0)%Z || negb (segx2 mod 2 =? 0)%Z) eqn:E5; [discriminate|].
+  destruct (declared <? c4_range_off (segx2 / 2) + 2 * (segx2 / 2))%Z eqn:E6; [discriminate|].
+  apply Z.ltb_ge in E1, E3, E4, E6. apply orb_false_iff in E5. destruct E5 as [E5a E5b].
+  apply Z.eqb_neq in E5a. apply negb_false_iff in E5b. apply Z.eqb_eq in E5b.
+  intros H. injection H as J1 J2 J3 J4 J5 J6. subst.
+  assert (Hn : (1 <= segx2 / 2)%Z) by lia.
+  set (q := (segx2 / 2)%Z) in *. clearbody q. clear E5a E5b.
+  unfold c4_range_off, c4_delta_off, c4_start_off, c4_end_off in *.
+  split; [lia|]. split; [exact Hn|]. intros s Hs2. lia.
+Qed.
+
+(* checking only up to the idDelta array (`deltaOff+2*segCount`) would accept a subtable that ends
+   in front of idRangeOffset: one segment, declared length 22 *)
+Lemma cmap4_layout_example :
+  cmap4_layout 24 4 22 2 = None /\ cmap4_layout 24 4 24 2 = Some (24, 1, 14, 18, 20, 22)%Z.
+Proof. vm_compute. split; reflexivity. Qed.
